@@ -168,6 +168,12 @@ def Sys.putCtr (s : Sys) (t : Nat) (c : Ctr) : Sys :=
 def issueToken (sp : SpanInner) : Token :=
   sp.token.map fun it => { it with parentId := sp.raw.id, isRoot := false }
 
+/-- the token a span variable contributes to a multi-parent child (nothing for a no-op span) -/
+def Sys.tokenOfVar (s : Sys) (p : String) : Token :=
+  match assocGet s.spans p with
+  | some (some sp) => issueToken sp
+  | _ => []
+
 /-! ### the command channel -/
 
 /-- first use of `COMMAND_SENDER` on a thread: create the ring, register the receiver.
@@ -408,11 +414,7 @@ def exec (s : Sys) (t : Nat) (op : Op) : Sys × Obs :=
     | some (some sp) => (s.newSpan t v name (issueToken sp) none, .ok)
   | .childN v name ps =>
     if ps.any (fun p => (assocGet s.spans p).isNone) then (s, .badOp "unknown span") else
-    let tok := ps.flatMap fun p =>
-      match assocGet s.spans p with
-      | some (some sp) => issueToken sp
-      | _ => []
-    (s.newSpan t v name tok none, .ok)
+    (s.newSpan t v name (ps.flatMap s.tokenOfVar) none, .ok)
   | .childLocal v name =>
     match th.stack.currentToken with
     | some tok => (s.newSpan t v name tok none, .ok)
